@@ -423,6 +423,14 @@ func judge1(k kase, extra *[][2]string) (sig, what string) {
 			return "query-function-second-use-does-not-account-for-an-added-individual", err.Error()
 		}
 	}
+	if k.Entry == "library" {
+		// merging is a function of the documents as they are when it is called: the same two document objects are
+		// merged again after the right one was changed through the API (an individual added or removed by replacing
+		// the document's nodes, by AddNode of a copy, by DeleteNode); the accounting must hold for the present state
+		if s, w := mergeAgain(lt, rt, k.Options); s != "" {
+			return s, w
+		}
+	}
 	show := fmt.Sprintf("edits=%v options=%s entry=%s\nleft:\n%sright:\n%smerged:\n%s", applied, k.Options, k.Entry, lt, rt, out.String())
 
 	// re-decode
@@ -587,6 +595,88 @@ func judge1(k kase, extra *[][2]string) (sig, what string) {
 					}
 				}
 			}
+		}
+	}
+	return "", ""
+}
+
+// mergeAgain: see judge1.
+func mergeAgain(lt, rt, opts string) (sig, what string) {
+	type edit struct {
+		name string
+		do   func(R *gedcom.Document) (marker string, wantCount int)
+	}
+	late := func(R *gedcom.Document, ptr, marker string) *gedcom.IndividualNode {
+		src := gedcom.NewDocument()
+		n := src.AddIndividual(ptr, gedcom.NewNameNode("Late /Addition/"), gedcom.NewNode(gedcom.TagNote, marker, ""))
+		return gedcom.DeepCopy(n, R).(*gedcom.IndividualNode)
+	}
+	lastIndi := func(R *gedcom.Document) gedcom.Node {
+		var last gedcom.Node
+		for _, n := range R.Nodes() {
+			if _, ok := n.(*gedcom.IndividualNode); ok {
+				last = n
+			}
+		}
+		return last
+	}
+	edits := []edit{
+		{"SetNodes(nodes + a new individual)", func(R *gedcom.Document) (string, int) {
+			R.SetNodes(append(append(gedcom.Nodes{}, R.Nodes()...), late(R, "LATE3", "MKRLATE3")))
+			return "MKRLATE3", 1
+		}},
+		{"AddNode(a new individual)", func(R *gedcom.Document) (string, int) {
+			R.AddNode(late(R, "LATE4", "MKRLATE4"))
+			return "MKRLATE4", 1
+		}},
+		{"SetNodes(nodes without the last individual)", func(R *gedcom.Document) (string, int) {
+			last := lastIndi(R)
+			if last == nil || len(markersOf(last)) != 1 {
+				return "", 0
+			}
+			var kept gedcom.Nodes
+			for _, n := range R.Nodes() {
+				if n != last {
+					kept = append(kept, n)
+				}
+			}
+			R.SetNodes(kept)
+			return markersOf(last)[0], 0
+		}},
+		{"DeleteNode(the last individual)", func(R *gedcom.Document) (string, int) {
+			last := lastIndi(R)
+			if last == nil || len(markersOf(last)) != 1 {
+				return "", 0
+			}
+			R.DeleteNode(last)
+			return markersOf(last)[0], 0
+		}},
+	}
+	for _, e := range edits {
+		L, _ := gedcom.NewDocumentFromString(lt)
+		R, _ := gedcom.NewDocumentFromString(rt)
+		var out *gedcom.Document
+		var err error
+		var marker string
+		var want int
+		p, msg, frame := vlib.Try(func() {
+			if _, err = gedcom.MergeDocumentsAndIndividuals(L, R, gedcom.EqualityMergeFunction, options(opts)); err != nil {
+				return
+			}
+			marker, want = e.do(R)
+			if marker == "" {
+				return
+			}
+			out, err = gedcom.MergeDocumentsAndIndividuals(L, R, gedcom.EqualityMergeFunction, options(opts))
+		})
+		if p {
+			return "panic:merge-again:" + frame + ":" + vlib.MsgClass(msg), msg
+		}
+		if marker == "" || err != nil || out == nil {
+			continue
+		}
+		if n := strings.Count(out.String(), marker); n != want {
+			return "merge-again-does-not-account-for-the-present-individuals", fmt.Sprintf("two documents were merged, the right one was changed with %s, and the same two objects were merged again: marker %s occurs %d times in the result, want %d\nleft:\n%sright now:\n%smerged:\n%s", e.name, marker, n, want, lt, R.String(), out.String())
 		}
 	}
 	return "", ""
